@@ -1,6 +1,6 @@
 """C06 — serial and parallel traversal report the same entries."""
 from .. import cfg as C
-from ..flow import ExprBuilder, mentions_field, mentions_call, is_call, walk, show, seed_after_call, I, V, Sccp, cond_switches, guarded, is_field, strip, value_set
+from ..flow import ExprBuilder, mentions_field, mentions_call, is_call, walk, show, seed_after_call, I, V, Sccp, cond_switches, guarded, is_field, strip, value_set, X
 from ..graph import field_rw, field_rw_deep, CallGraph
 from ..facts import op_place, op_const
 
@@ -384,7 +384,9 @@ def run(ctx):
                                                                                        "" if gw[0].bb in sx.exec_blocks else "not "))
                 if errv and not below and any(c.bb in sx.exec_blocks for c in errv):
                     wrong_err.append("max_depth=3 depth=%d" % d_)
-            d_e = ExprBuilder(gw[0].unit).operand(gw[0].args[2])
+            # the depth handed on: an argument of its own, or a component of a struct / tuple of per-directory values
+            _ebu = ExprBuilder(gw[0].unit)
+            d_e = X(("agg", "(tuple)", "", [_ebu.operand(a_) for a_ in gw[0].args[1:]], []))
 
             def from_depth(x):
                 if mentions_call(x, W + "::DirEntry::depth"):
